@@ -177,6 +177,7 @@ type rconObs struct {
 	Verdict bool // cloginresp over DialRCON: the login verdict of the real code is in Ok
 	Panic   string
 	Note    string
+	held    *string // the payload string the real call returned, looked at again when the session ends
 }
 
 // rconRunMem executes a script sequentially on the in-memory duplex.
@@ -210,18 +211,18 @@ func rconRunMem(s rconBeh, chunkSeed int64) []rconObs {
 				o.ID = client.ReqID
 			case "cloginresp":
 				r, t, pl, err := client.ReadPacket()
-				o.Ok, o.ID, o.Ty, o.P = err == nil, r, t, []byte(pl)
+				o.Ok, o.ID, o.Ty, o.P, o.held = err == nil, r, t, []byte(pl), &pl
 			case "ccmd":
 				wrote(c2s, func() error { return client.Cmd(string(bytesOf(st.P))) })
 			case "cresp":
 				resp, err := client.Resp()
-				o.Ok, o.P = err == nil, []byte(resp)
+				o.Ok, o.P, o.held = err == nil, []byte(resp), &resp
 			case "slogin":
 				wrote(s2c, func() error { return server.AcceptLogin(string(bytesOf(s.Spw))) })
 				o.Sreq = server.ReqID
 			case "scmd":
 				cmd, err := server.AcceptCmd()
-				o.Ok, o.P, o.Sreq = err == nil, []byte(cmd), server.ReqID
+				o.Ok, o.P, o.Sreq, o.held = err == nil, []byte(cmd), server.ReqID, &cmd
 			case "sresp":
 				wrote(s2c, func() error { return server.RespCmd(string(bytesOf(st.P))) })
 			case "aserve":
@@ -245,7 +246,7 @@ func rconRunMem(s rconBeh, chunkSeed int64) []rconObs {
 					r = client
 				}
 				id, t, pl, err := r.ReadPacket()
-				o.Ok, o.ID, o.Ty, o.P = err == nil, id, t, []byte(pl)
+				o.Ok, o.ID, o.Ty, o.P, o.held = err == nil, id, t, []byte(pl), &pl
 				if err != nil {
 					buf(st.D).clear() // the stream is abandoned after a refusal
 				}
@@ -265,6 +266,12 @@ func rconRunMem(s rconBeh, chunkSeed int64) []rconObs {
 		if p {
 			o.Panic = msg
 			break
+		}
+	}
+	// a payload is judged as it reads when the session is over: what a call returned must not change under later calls
+	for i := range obs {
+		if obs[i].held != nil {
+			obs[i].P = []byte(*obs[i].held)
 		}
 	}
 	return obs
